@@ -72,6 +72,15 @@ func init() {
 	mutant(&Mutant{Name: "c04-offset-buffer-shared", Property: "C04", File: "css/css.go",
 		Old: "b = strconv.AppendInt(make([]byte, 0, 4), 100-n, 10)", New: "b = strconv.AppendInt(b[:0], 100-n, 10)",
 		Rule: "R04.6", Construct: "b stored by"})
+	mutant(&Mutant{Name: "c04-hex-alpha-pair-not-compared", Property: "C04", File: "css/css.go",
+		Old: "} else if len(data) == 9 && data[1] == data[2] && data[3] == data[4] && data[5] == data[6] && data[7] == data[8] {", New: "} else if len(data) == 9 && data[1] == data[2] && data[3] == data[4] && data[5] == data[6] {",
+		Rule: "R04.14", Construct: "data cut to 5 bytes"})
+	mutant(&Mutant{Name: "c04-zero-flex-fraction-loses-unit", Property: "C04", File: "css/table.go",
+		Old: "\t\"em\":   true,\n", New: "\t\"em\":   true,\n\t\"fr\":   true,\n",
+		Rule: "R04.12", Construct: "css.optionalZeroDimension[fr]"})
+	mutant(&Mutant{Name: "c04-hsl-numbers-converted-unscaled", Property: "C04", File: "css/css.go",
+		Old: "} else if (fun == Hsl || fun == Hsla) && args[0].TokenType == css.NumberToken", New: "} else if fun == Hsl || fun == Hsla && args[0].TokenType == css.NumberToken",
+		Rule: "R04.15", Construct: "HSL2RGB#1 only for percentages"})
 	mutant(&Mutant{Name: "c04-custom-property-collapsed", Property: "C04", File: "css/css.go",
 		Old: "\t\t\tvalue := parse.TrimWhitespace(c.p.Values()[0].Data)\n", New: "\t\t\tvalue := parse.TrimWhitespace(parse.ReplaceMultipleWhitespace(c.p.Values()[0].Data))\n",
 		Rule: "R04.4", Construct: "confined to comment text"})
@@ -88,6 +97,12 @@ func init() {
 	mutant(&Mutant{Name: "c09-break-label-no-semicolon", Property: "C09", File: "js/js.go",
 		Old: "\t\tif stmt.Label != nil {\n\t\t\tm.write(spaceBytes)\n\t\t\tm.write(stmt.Label)\n\t\t}\n\t\tm.requireSemicolon()\n", New: "\t\tif stmt.Label != nil {\n\t\t\tm.write(spaceBytes)\n\t\t\tm.write(stmt.Label)\n\t\t} else {\n\t\t\tm.requireSemicolon()\n\t\t}\n",
 		Rule: "R09.1", Construct: "case *js.BranchStmt"})
+	mutant(&Mutant{Name: "c09-for-of-iterable-at-expression-level", Property: "C09", File: "js/js.go",
+		Old: "\t\tm.minifyExpr(stmt.Value, js.OpAssign)\n", New: "\t\tm.minifyExpr(stmt.Value, js.OpExpr)\n",
+		Rule: "R09.15", Construct: "ForOfStmt.Value printed at its production's level"})
+	mutant(&Mutant{Name: "c09-conditional-test-at-assignment-level", Property: "C09", File: "js/js.go",
+		Old: "\t\tm.minifyExpr(expr.Cond, js.OpCoalesce)\n", New: "\t\tm.minifyExpr(expr.Cond, js.OpAssign)\n",
+		Rule: "R09.15", Construct: "CondExpr.Cond printed at its production's level"})
 	mutant(&Mutant{Name: "c09-class-field-no-semicolon", Property: "C09", File: "js/js.go",
 		Old: "\t\t\tif item.Init != nil {\n\t\t\t\tm.write(equalBytes)\n\t\t\t\tm.minifyExpr(item.Init, js.OpAssign)\n\t\t\t}\n\t\t\tm.requireSemicolon()\n", New: "\t\t\tif item.Init != nil {\n\t\t\t\tm.write(equalBytes)\n\t\t\t\tm.minifyExpr(item.Init, js.OpAssign)\n\t\t\t\tm.requireSemicolon()\n\t\t\t}\n",
 		Rule: "R09.1", Construct: "class field"})
@@ -184,10 +199,15 @@ func runC04(c *Ctx) {
 	c.r049(pk)
 	c.r0410(pk)
 	c.r0411(pk)
+	c.r0415(pk)
 	// positions remembered while rewriting a value list (background layers) stay valid: same rule as R10.5, css only
 	c.alsoUnder(map[string]string{"R10.5": "R04.8"}, func(construct string) bool {
 		return strings.HasPrefix(construct, "css.") || strings.HasPrefix(construct, "floor/")
 	}, func() { c.r105() })
+	// the CSS tables decide which values are rewritten: a unit in optionalZeroDimension that is not a length or angle
+	// (`0fr` → `0`), or a colour name / hex pair that are not the same sRGB colour, changes the computed value
+	c.hexCompaction("R04.14", "css", 3)
+	c.alsoUnder(map[string]string{"R17.units": "R04.12", "R17.colors": "R04.13"}, nil, func() { c.ruleUnits(); c.ruleColors() })
 }
 
 func runC04own(c *Ctx) {
@@ -401,6 +421,7 @@ func runC09(c *Ctx) {
 		c.alsoUnder(map[string]string{"R01.3": "R09.13"}, nil, func() { c.r013(pk, "R01.3", map[string]bool{"inFor": true}) })
 		c.r0911(pk)
 		c.r0912(pk)
+		c.r0915(pk)
 	}
 	// a JSON number without its leading zero (`.5`) is not JSON
 	// … and a JSON string that is rewritten can end the script element it is embedded in (`<\/script>` → `</script>`)
@@ -1136,4 +1157,49 @@ func (c *Ctx) r0411(pk *packages.Package) {
 		c.R.Check(good, rule, fmt.Sprintf("css.cssMinifier.minifySelectors/attribute value unquoted#%d only when it is an identifier", n), c.pos(a), "behind css.IsIdent("+written+")", "the value is written without its quotes on the verdict of "+via+", which can say yes where the tokenizer's css.IsIdent says no (`-1`, a lone `-`): the selector becomes invalid and the rule is dropped")
 	}
 	c.R.Floor(rule, "unquoted attribute values", n, 1)
+}
+
+// R04.15: hsl() is converted to a hex colour only when saturation and lightness are percentages.
+func (c *Ctx) r0415(pk *packages.Package) {
+	const rule = "R04.15"
+	c.R.Rule(rule, "css.HSL2RGB takes saturation and lightness as fractions of one; the minifier divides percentages by 100 and leaves plain numbers as they are. `hsl(0 50 50)` (numbers: CSS Color 4 reads them as 50%) therefore reaches the conversion with s = l = 50 and comes out as #613c3c instead of #bf4040, and the legacy `hsl(0,50,50)`, which a browser rejects, becomes a valid colour. Every call of css.HSL2RGB in cssMinifier.minifyTokens is dominated by the true outcomes of `args[2].TokenType == css.PercentageToken` and `args[4].TokenType == css.PercentageToken` — for hsl as well as hsla: a condition `fun == Hsl || fun == Hsla && …` applies the type tests to hsla only")
+	info := pk.TypesInfo
+	fd := c.fn(rule, pk, "cssMinifier.minifyTokens")
+	if fd == nil {
+		return
+	}
+	g := c.graph(pk, fd)
+	n := 0
+	for _, y := range g.Nodes {
+		a := y.Ast()
+		if a == nil || y.Kind != flow.KStmt || len(findCalls(info, a, false, load.ParseMod+"/css.HSL2RGB")) == 0 {
+			continue
+		}
+		n++
+		have := map[string]bool{}
+		for _, f := range g.DomFacts(y) {
+			if !f.Value || f.Test.Kind != flow.KCond {
+				continue
+			}
+			be, ok := ast.Unparen(f.Test.Expr).(*ast.BinaryExpr)
+			if !ok || be.Op != token.EQL {
+				continue
+			}
+			l, r := nospace(str(be.X)), nospace(str(be.Y))
+			if l == "css.PercentageToken" {
+				l, r = r, l
+			}
+			if r == "css.PercentageToken" {
+				have[l] = true
+			}
+		}
+		var missing []string
+		for _, w := range []string{"args[2].TokenType", "args[4].TokenType"} {
+			if !have[w] {
+				missing = append(missing, w)
+			}
+		}
+		c.R.Check(len(missing) == 0, rule, fmt.Sprintf("css.cssMinifier.minifyTokens/HSL2RGB#%d only for percentages", n), c.pos(a), "behind the percentage tests of saturation and lightness", "the conversion is reached without "+strings.Join(missing, " and ")+" being a percentage: numbers are handed to HSL2RGB unscaled (`hsl(0 50 50)` → #613c3c, the colour is #bf4040)")
+	}
+	c.R.Floor(rule, "HSL2RGB calls", n, 1)
 }
